@@ -83,7 +83,12 @@ static void elim_case(const vh_args_t *a, int op) {
     m = vh_randint(4, 40);
     n = vh_pick((int[]){448, 512, 513, 576, 640, 960, 1024, 1088}, 8) - vh_pick((int[]){0, 0, 1, 37}, 4);
   }
+  /* full row rank with a multiple of 64 rows and more columns than rows (the PLUQ-based reduction treats a rank that is a
+   * multiple of the word size separately) */
+  int fullrow = !wide && vh_randint(0, 7) == 0;
+  if (fullrow) { m = vh_pick((int[]){64, 128}, 2); n = m + vh_pick((int[]){1, 6, 64, 70, 130}, 5); }
   mzd_t *A = vh_mk(m, n, -1);
+  if (fullrow) vh_fill_dense(A); else
   vh_fill_profile(A, wide ? vh_pick((int[]){1, 2, 3, 3, 6}, 5) : pick_style());
   int full = vh_randint(0, 1), k = vh_randint(0, 10);
   if (k == 9 || k == 10) k = vh_randint(0, 1) ? 0 : k; /* k up to 10 is admissible but allocates 6*2^k rows */
@@ -357,6 +362,15 @@ int fam_ple(const vh_args_t *a) {
 /* ------------------------------------------------------------------ trsm */
 /* unit triangular T with random junk in the opposite triangle (as when L and U share storage) */
 static void fill_tri(mzd_t *T, int upper) {
+  if (vh_randint(0, 3) == 0) {
+    /* sparse: the identity plus a few entries (rows that are zero across most of a table block), both triangles */
+    vh_fill_kind(T, 2);
+    int cnt = vh_randint(1, 3 + T->nrows / 6);
+    for (int t = 0; t < cnt; t++) {
+      int i = vh_randint(0, T->nrows - 1), j = vh_randint(0, T->nrows - 1);
+      T->data[(size_t)i * T->rowstride + j / 64] |= (word)1 << (j % 64);
+    }
+  } else
   vh_fill_dense(T);
   for (int i = 0; i < T->nrows; i++) T->data[(size_t)i * T->rowstride + i / 64] |= (word)1 << (i % 64);
   (void)upper;
